@@ -2,13 +2,13 @@ package main
 
 import (
 	"fmt"
-	"os"
-	"sort"
-	"time"
 	"go/constant"
 	"go/token"
 	"go/types"
+	"os"
+	"sort"
 	"strings"
+	"time"
 
 	"golang.org/x/tools/go/ssa"
 )
@@ -17,7 +17,7 @@ import (
 
 type Value interface{}
 
-type Str struct{ b []*Term }                    // string with concrete length
+type Str struct{ b []*Term } // string with concrete length
 type Cell struct {
 	v      Value
 	frozen bool  // part of an object graph shared between paths (a cached parsed Program): stores are recorded
@@ -28,11 +28,11 @@ type undoEntry struct {
 	c   *Cell
 	old Value
 }
-type StructObj struct{ f []Obj }                // addressable struct
-type ArrayObj struct{ e []Obj }                 // addressable array
-type Obj interface{}                            // *Cell | *StructObj | *ArrayObj
-type Ptr struct{ o Obj }                        // pointer (nil o = nil pointer)
-type SliceV struct {                            // slice header, concrete shape
+type StructObj struct{ f []Obj } // addressable struct
+type ArrayObj struct{ e []Obj }  // addressable array
+type Obj interface{}             // *Cell | *StructObj | *ArrayObj
+type Ptr struct{ o Obj }         // pointer (nil o = nil pointer)
+type SliceV struct {             // slice header, concrete shape
 	a             *ArrayObj
 	off, len, cap int
 }
@@ -98,6 +98,8 @@ type Exec struct {
 	globals               map[*ssa.Global]Obj
 	inited                map[string]bool
 	quoted                map[*Str]bool
+	clock                 int64           // calls of time.Now on this path
+	reBad                 map[string]bool // regexp.Compile contract verdict per symbolic pattern text (per path)
 	inQuoteMeta           bool
 	nvars                 int
 	failWhere             string
@@ -115,16 +117,16 @@ type Exec struct {
 	inCachedParse         bool
 	solver                *Solver
 	// current path
-	pc       []*Term
-	decision []int // outcomes taken so far on this path
-	prefix   []int // outcomes to replay
-	work     []workItem
-	model     map[*Term]uint64
-	dom       map[*Term]bitset
-	entangled map[*Term]bool
-	steps    int
-	known    []knownPred
-	inputs   []*Term
+	pc         []*Term
+	decision   []int // outcomes taken so far on this path
+	prefix     []int // outcomes to replay
+	work       []workItem
+	model      map[*Term]uint64
+	dom        map[*Term]bitset
+	entangled  map[*Term]bool
+	steps      int
+	known      []knownPred
+	inputs     []*Term
 	inputNames []string
 	// work splitting: the frontier pass cuts the path tree at splitDepth; every prefix of that length is a task
 	splitDepth   int
@@ -139,7 +141,7 @@ type Exec struct {
 	maxSteps    int
 	deadline    time.Time
 	// results
-	res *ShardResult
+	res       *ShardResult
 	funcsSeen map[string]bool
 	seenViol  map[string]int
 }
@@ -618,7 +620,6 @@ func (x *Exec) get(fr *frame, v ssa.Value) Value {
 	return r
 }
 
-
 var denyInit = map[string]bool{"runtime": true, "os": true, "syscall": true, "sync": true, "reflect": true, "fmt": true, "time": true, "errors": true, "internal/reflectlite": true, "sync/atomic": true, "regexp/syntax": true, "math/rand": true, "os/exec": true, "context": true}
 
 func (x *Exec) global(g *ssa.Global) Obj {
@@ -644,9 +645,6 @@ func (x *Exec) global(g *ssa.Global) Obj {
 	x.globals[g] = o
 	return o
 }
-
-
-
 
 func (x *Exec) call(fn *ssa.Function, args []Value, bind []Value) (ret Value) {
 	retSet := false
